@@ -68,6 +68,8 @@ _KINDS = {
     "latex": (r"\\cdot 10\^\{(?P<exp>-?\d+)\}", r"10\^\{(?P<exp>-?\d+)\}", "\\,"),
     "unicode": (u"·10(?P<sup>[⁰¹²³⁴⁵⁶⁷⁸⁹⁻⁺]+)", u"10(?P<sup>[⁰¹²³⁴⁵⁶⁷⁸⁹⁻⁺]+)", " "),
     "html": (r"&sdot;10<sup>(?P<exp>-?\d+)</sup>", r"10<sup>(?P<exp>-?\d+)</sup>", " "),
+    # the LaTeX reaction printer separates number and unit by a blank (and wraps the unit in $...$)
+    "latex-rxn": (r"\\cdot 10\^\{(?P<exp>-?\d+)\}", r"10\^\{(?P<exp>-?\d+)\}", " "),
 }
 
 
@@ -78,7 +80,24 @@ def _exp_of(m):
     return int(gd["exp"])
 
 
-def lex_number(text, kind):
+def lex_embedded(text, kind):
+    """Every number written inside a longer text (a printed rate expression), in order."""
+    out, i = [], 0
+    while i < len(text):
+        ch = text[i]
+        prev = text[i - 1] if i else " "
+        if (ch.isdigit() or (ch == "-" and i + 1 < len(text) and text[i + 1].isdigit())) \
+                and not (prev.isalnum() or prev in "._"):
+            obs = lex_number(text[i:], kind, prefix=True)
+            if obs["lexed"]:
+                out.append(obs)
+                i += max(1, obs.pop("consumed"))
+                continue
+        i += 1
+    return out
+
+
+def lex_number(text, kind, prefix=False):
     """Un-present one printed number (optionally followed by a unit).
 
     -> {"lexed": True, "neg", "digs", "ndec", "omitted", "hasexp", "exp", "hasu", "udigs",
@@ -112,6 +131,9 @@ def lex_number(text, kind):
             # length of the number in the plain "e" notation (un-presented)
             obs["len"] += 1 + len(str(obs["exp"]))
             rest = rest[m2.end():]
+    if prefix:
+        obs.update(lexed=True, unit="", consumed=len(text) - len(rest))
+        return obs
     if rest == "":
         unit = ""
     elif rest.startswith(sep) and len(rest) > len(sep):
